@@ -55,6 +55,8 @@ def _eq_known(a, b):
             return False
     if a == b and head(a) in ("sym", "glob", "const"):
         return True
+    if head(a) == "glob" and head(b) == "glob" and a[1].startswith("pyrepseq.") and b[1].startswith("pyrepseq.") and a[1].rsplit(".", 1)[0] == b[1].rsplit(".", 1)[0]:
+        return False          # two different members of one repo class (enum members)
     return None
 
 
@@ -85,6 +87,8 @@ def simp(t):
             r = _eq_known(a, b)
             if r is not None:
                 return TRUE if (r == (op in ("==", "is"))) else FALSE
+        if op in ("in", "notin") and is_const(a) and is_const(b) and isinstance(a[2], str) and isinstance(b[2], str):
+            return TRUE if ((a[2] in b[2]) == (op == "in")) else FALSE
         if op in ("in", "notin"):
             bs = strip(b)
             if head(bs) in ("tuple", "list", "set"):
